@@ -12,10 +12,15 @@ package regprocessor
 //     reload (reloads are sequential, as in cmd/registration-server/main.go where one goroutine
 //     handles SIGHUP). After each move the harness waits until every started actor is in a *stable*
 //     state: parked in the wrapper, finished, or blocked in a sync lock wait. "Blocked" is read off the
-//     runtime's goroutine dump (wait reason sync.RWMutex.RLock / sync.RWMutex.Lock / sync.Mutex.Lock),
-//     and a blocked reload is cross-checked with selectorMutex.TryRLock() (fails while a writer waits).
-//     Wake-ups are performed synchronously by the releasing goroutine before it reports its own next
-//     event, so a dump taken after the last event reflects every wake-up it caused.
+//     runtime's goroutine dump (wait reason sync.RWMutex.RLock / sync.RWMutex.Lock / sync.Mutex.Lock
+//     with the registrar's own code as the caller of the lock operation), and a blocked reload is
+//     cross-checked with selectorMutex.TryRLock() (fails while a writer waits). Wake-ups are performed
+//     synchronously by the releasing goroutine before it reports its own next event, so a dump taken
+//     after the last event reflects every wake-up it caused.
+//   - a stall is reported only when no move is enabled, every unfinished actor is blocked, nothing
+//     moved during a further generous wait and the dump taken after that wait still shows the lock
+//     frames. Anything that moves during that wait means "not a stall" and the schedule goes on; every
+//     other harness wait that expires is a harness problem (exit 2), never a verdict.
 //   - a schedule is the list of moves (actor names); it is replayable because enabledness of moves is
 //     a function of the stable states only.
 //   - ReloadSubnets replaces the wrapper with the raw new selector. At the next stable point with no
@@ -310,6 +315,23 @@ func (g c13G) lockWait() bool {
 	return g.state == "sync.RWMutex.RLock" || g.state == "sync.RWMutex.Lock" || g.state == "sync.Mutex.Lock" || g.state == "semacquire"
 }
 
+// blocked reports whether the goroutine waits for a lock that the registrar's own code asked for
+// (selectorMutex, zmqMutex, the metrics mutex). Lock waits inside library code (sync.Pool's global
+// mutex after a GC cycle, protobuf's lazy initialisation, ...) have holders outside the harness'
+// closed system of actors; they are transient and count as "running".
+func (g c13G) blocked() bool {
+	if !g.lockWait() {
+		return false
+	}
+	w := g.where()
+	i := strings.Index(w, " <- ")
+	if i < 0 {
+		return false
+	}
+	caller := w[i+4:]
+	return strings.HasPrefix(caller, "regprocessor.") || strings.HasPrefix(caller, "metrics.")
+}
+
 // where returns "sync.(*RWMutex).RLock <- regprocessor.(*RegProcessor).processBdReq regprocessor.go:514".
 func (g c13G) where() string {
 	lines := strings.Split(g.text, "\n")
@@ -349,7 +371,7 @@ type c13Case struct {
 	Reloads  []string `json:"reloads"`            // "new" | "missing" | "garbage"
 	Schedule []string `json:"schedule,omitempty"` // authoritative when present: actor to move, "r<i>" or "L<j>"
 	Picks    []int    `json:"picks,omitempty"`    // otherwise: index into the list of enabled moves (mod its length); then first-enabled
-	Reduce   bool     `json:"reduce,omitempty"`   // canonical order of request moves while no reload is in flight
+	Reduce   bool     `json:"reduce,omitempty"`   // requests move in index order within each segment between reload events
 	Sym      bool     `json:"sym,omitempty"`      // requests of the same kind are started in index order
 }
 
@@ -382,9 +404,7 @@ type c13Actor struct {
 	needHi  bool  // finished in the current settle round
 	hi      int   // set installed at the stable point after it finished
 	between []int // targets of "new" reloads that started while this request was between its two selections
-	raw     bool  // was queued behind a writer at some point
 	target  int   // reload: the set file it loads (kind "new")
-	prevSet int   // reload: set installed when it started
 }
 
 type c13Ev struct {
@@ -561,7 +581,6 @@ func (s *c13Sched) move(a *c13Actor) {
 		case "garbage":
 			path = s.e.garbage
 		}
-		a.prevSet = s.cur
 		os.Setenv("PHANTOM_SUBNET_LOCATION", path)
 		s.inflight = a
 		s.segLast = -1
@@ -692,7 +711,7 @@ func (s *c13Sched) settle() error {
 				if a.state != c13Blocked {
 					continue
 				}
-				if g := d[a.gid]; g.lockWait() {
+				if g := d[a.gid]; g.blocked() {
 					a.lastWait = g.text
 				} else {
 					a.state = c13Running
@@ -736,10 +755,9 @@ func (s *c13Sched) settle() error {
 		d := c13Dump()
 		s.dumps++
 		for _, a := range s.all() {
-			if a.state == c13Running && a.gid != 0 && d[a.gid].lockWait() {
+			if a.state == c13Running && a.gid != 0 && d[a.gid].blocked() {
 				a.state = c13Blocked
 				if !a.reload {
-					a.raw = true
 					s.classes["reader-queued-behind-writer"] = true
 				}
 			}
@@ -839,6 +857,7 @@ type c13Result struct {
 	Classes []string
 	Nontriv bool
 	Stalled bool
+	Notes   []string
 }
 
 // c13Run executes one schedule on a fresh registrar.
@@ -865,6 +884,7 @@ func c13Run(e *c13Env, c c13Case) (res c13Result) {
 		res.Nontriv = s.nontrivial
 	}()
 	si := 0
+	stallMsg := ""
 	for step := 0; ; step++ {
 		if step > 4096 {
 			res.Harness = "schedule does not terminate"
@@ -872,6 +892,51 @@ func c13Run(e *c13Env, c c13Case) (res c13Result) {
 		}
 		en := s.enabled(c.Reduce, c.Sym)
 		if len(en) == 0 {
+			// a reload that could not be started because its predecessor never returned is not "open"
+			var open []*c13Actor
+			for _, a := range s.all() {
+				if a.state != c13Done && a.state != c13New {
+					open = append(open, a)
+				}
+			}
+			if len(open) == 0 {
+				break
+			}
+			// Nothing can move and every unfinished actor was seen blocked. Before this is called a
+			// stall: one more generous wait. Anything that moves during it means "not a stall"
+			// (the schedule simply goes on); a time-out alone decides nothing either - the dump
+			// taken after it must still show every open actor in its lock wait.
+			w := c13StallWaitNext
+			if c13StallsSeen.Load() == 0 {
+				w = c13StallWaitLong
+			}
+			tm := time.NewTimer(w)
+			select {
+			case ev := <-s.ev:
+				tm.Stop()
+				s.apply(ev)
+				s.classes["late-wakeup"] = true
+				res.Notes = append(res.Notes, fmt.Sprintf("late wake-up: %s moved during the final wait although it had been seen in a lock wait as: %s", ev.a.name, c13G{text: ev.a.lastWait}.where()))
+				if err := s.settle(); err != nil {
+					res.Harness = err.Error()
+					return
+				}
+				continue
+			case <-tm.C:
+			}
+			d := c13Dump()
+			for _, a := range open {
+				if g, ok := d[a.gid]; !ok || !g.blocked() {
+					res.Harness = fmt.Sprintf("unfinished actor %s is not in a lock wait after the final wait: %s", a.name, s.describe(d))
+					return
+				}
+			}
+			if len(s.ev) > 0 {
+				continue
+			}
+			c13StallsSeen.Add(1)
+			res.Stalled = true
+			stallMsg = fmt.Sprintf("registrar blocked for good: no actor can move and after a further %v the goroutine dump still shows: %s", w, s.describe(d))
 			break
 		}
 		pick := 0
@@ -890,8 +955,8 @@ func c13Run(e *c13Env, c c13Case) (res c13Result) {
 					break
 				}
 			}
-		} else if step < len(c.Picks) {
-			pick = c.Picks[step] % len(en)
+		} else if dec := len(res.Picked); dec < len(c.Picks) {
+			pick = c.Picks[dec] % len(en)
 			if pick < 0 {
 				pick = -pick
 			}
@@ -908,13 +973,6 @@ func c13Run(e *c13Env, c c13Case) (res c13Result) {
 	}
 
 	// ---- oracle -----------------------------------------------------------------------------
-	var open []*c13Actor
-	for _, a := range s.all() {
-		// a reload that could not be started because its predecessor never returned is not "open"
-		if a.state != c13Done && a.state != c13New {
-			open = append(open, a)
-		}
-	}
 	first := func(k, m string) {
 		if res.Key == "" {
 			res.Key, res.Msg = k, m
@@ -962,32 +1020,8 @@ func c13Run(e *c13Env, c c13Case) (res c13Result) {
 			s.classes["reload-ok"] = true
 		}
 	}
-	if len(open) > 0 {
-		// nothing is enabled, so every unfinished actor is blocked. Confirm before calling it a stall.
-		res.Stalled = true
-		w := c13StallWaitNext
-		if c13StallsSeen.Load() == 0 {
-			w = c13StallWaitLong
-		}
-		tm := time.NewTimer(w)
-		select {
-		case ev := <-s.ev:
-			tm.Stop()
-			s.apply(ev)
-			res.Harness = fmt.Sprintf("a state judged stable changed during the final wait (%s moved, event %d): %s; it had been seen waiting as:\n%s", ev.a.name, ev.typ, s.describe(c13Dump()), ev.a.lastWait)
-			return
-		case <-tm.C:
-		}
-		d := c13Dump()
-		for _, a := range open {
-			g, ok := d[a.gid]
-			if !ok || !g.lockWait() || g.where() == "" {
-				res.Harness = fmt.Sprintf("unfinished actor %s is not in a lock wait after the final wait: %s", a.name, s.describe(d))
-				return
-			}
-		}
-		c13StallsSeen.Add(1)
-		first("stall", fmt.Sprintf("registrar blocked for good: no actor can move and after a further %v the goroutine dump still shows: %s", w, s.describe(d)))
+	if res.Stalled {
+		first("stall", stallMsg)
 		return
 	}
 
@@ -1024,7 +1058,7 @@ func c13Run(e *c13Env, c c13Case) (res c13Result) {
 		if wait < 5*time.Millisecond {
 			wait *= 2
 		}
-		if g := c13Dump()[gidMsg.gid]; g.lockWait() && g.where() != "" {
+		if g := c13Dump()[gidMsg.gid]; g.blocked() {
 			// every actor has finished, so nobody is left who could release that lock; confirm anyway
 			w := c13StallWaitNext
 			if c13StallsSeen.Load() == 0 {
@@ -1036,7 +1070,7 @@ func c13Run(e *c13Env, c c13Case) (res c13Result) {
 				continue
 			case <-time.After(w):
 			}
-			if g = c13Dump()[gidMsg.gid]; g.lockWait() && g.where() != "" {
+			if g = c13Dump()[gidMsg.gid]; g.blocked() {
 				c13StallsSeen.Add(1)
 				res.Stalled = true
 				first("stall", fmt.Sprintf("registrar blocked for good: every request and reload of the schedule has returned, yet a further request still waits after %v in %s", w, g.where()))
@@ -1078,6 +1112,9 @@ func c13Check(t vh.Fataler, rec *vh.Rec, e *c13Env, c c13Case) c13Result {
 		return res
 	}
 	rec.Case(res.Nontriv, vh.Digest(shown), shown, res.Classes...)
+	for _, n := range res.Notes {
+		rec.Note("%s", n)
+	}
 	if res.Key != "" {
 		rec.Violation(t, res.Key, shown, "%s; requests=%v reloads=%v schedule=%v", res.Msg, c.Reqs, c.Reloads, res.Trace)
 	}
